@@ -390,13 +390,51 @@ def replay_file(path):
     return 0
 
 
+def selftest():
+    """the verifier must accept a true postcondition and refute a false one on the same real function, with a counter-model
+    that violates the false clause when run natively; a contradictory precondition must be reported as vacuous, not as a pass"""
+    import copy
+    from pyvc import engine
+    from pyvc.api import Str
+    from props import c08
+    good = c08._short_unit()
+    bad = copy.copy(good)
+    bad.name = 'selftest/false postcondition'
+    bad.ensures = [('result_keeps_the_T', lambda result: result[0] == 'T')]
+    vac = copy.copy(good)
+    vac.name = 'selftest/contradictory precondition'
+    vac.requires = lambda twprge: len(twprge) < 3
+    problems = []
+    r = engine.run_unit(good)
+    if r['status'] != 'ok' or not r['obligations'] or any(o['status'] != 'discharged' for o in r['obligations']):
+        problems.append('a true postcondition was not discharged')
+    r = engine.run_unit(bad)
+    failed = [o for o in r['obligations'] if o['status'] == 'failed']
+    if not failed:
+        problems.append('a false postcondition was not refuted')
+    else:
+        from pytrs.parser.unpack.unpackers import twprge_natural_to_short
+        m = failed[0]['model'] or {}
+        if 'twprge' not in m or twprge_natural_to_short(m['twprge'])[0] == 'T':
+            problems.append(f'the counter-model {m!r} does not violate the false clause natively')
+    r = engine.run_unit(vac)
+    if r['obligations']:
+        problems.append('a contradictory precondition still produced obligations')
+    return problems
+
+
 def setup():
     import z3
     import pytrs      # noqa
     from pyvc import engine   # noqa
     ok = os.path.exists('/usr/bin/cvc5')
     print(f"setup ok: z3 {z3.get_version_string()}, cvc5 cli {'present' if ok else 'MISSING'}, pytrs from {pytrs.__file__}")
-    return 0
+    problems = selftest()
+    for p_ in problems:
+        print('SELFTEST FAILED:', p_)
+    if not problems:
+        print('selftest ok: true postcondition discharged, false one refuted with a native counterexample, contradictory requires is vacuous')
+    return 3 if problems else 0
 
 
 def main():
